@@ -471,6 +471,7 @@ func LimitPrograms(rng *rand.Rand, n int) []*Program {
 			cfg.MBRows = 3 + rng.Intn(5)
 			cfg.MRGBytes = 200 + rng.Intn(400)
 		}
+		cfg.Comp = []string{"", "snappy", "zstd"}[i%3]
 		p := &Program{Name: fmt.Sprintf("L-%d", i), Cfg: cfg}
 		p.Phases = append(p.Phases, []Op{{Op: "start"}})
 		nb := 3 + rng.Intn(6)
